@@ -4,11 +4,13 @@ Case format (sx):  [path, tr, lock, labels, second]        (decoded by coq/Run/C
   path   0 transport.aclose  1 aclose_forcefully(transport)  2 AsyncTLSStreamTransport.wrap  3 AsyncStreamEndpoint.aclose
          4 AsyncTCPNetworkClient.aclose  5 _ConnectedClientAPI.aclose  6 server client task teardown
          7 teardown after the request handler called client.aclose()
+         8 AsyncTCPNetworkClient.aclose while a send_packet() task is still establishing the connection (send lock held)
   tr     [0, base] | [1, [standard_compatible, unwrap_points, handshake_points], base]
   base   [0, leaf, m] (in-memory leaf transport whose aclose has m suspension points) | [1, send_half, recv_half]
          [0, leaf, 0, 1] = the real AsyncioTransportStreamSocketAdapter over a loopback TCP pair (fd observed);
          [0, leaf, 0, 2] = the same with 16 MiB of unflushed data and a silent peer; [0, leaf, 0, 3] = peer reset just before
-  lock   1: a sender task is suspended in the leaf's send_all, holding the send lock and the send guard
+  lock   1: a sender task is suspended in the leaf's send_all, holding the send lock and the send guard;
+         2: a reader task is suspended in recv_packet() (endpoint / client paths)
   labels outcome at each suspension point reached, in order: 0 completes, 1 raises OSError, 2 the closing task is
          cancelled, 3 the enclosing timed scope (TLS shutdown / handshake timeout) expires
   second 1: close a second time afterwards (remaining labels); 2: and a third time
@@ -219,6 +221,7 @@ class World:
         self.scripting = False     # False while the harness sets the scene (handshake, sender): I/O never suspends
         self.sender_fut = None     # the suspended sender's send_all
         self.on_sender_armed = None
+        self.reader_fut = None     # "arm": the next recv of a leaf suspends for good (a reader blocked in recv_packet)
 
     async def point(self):
         fut = asyncio.get_running_loop().create_future()
@@ -276,6 +279,11 @@ def make_classes():
             pass
 
         async def recv(self, bufsize):
+            if self.world.reader_fut == "arm":
+                fut = asyncio.get_running_loop().create_future()
+                self.world.reader_fut = fut
+                await fut
+                return b""
             if not self.inbox and self.peer is not None:
                 self.inbox += self.peer.take_immediate()
             if not self.inbox:
@@ -639,13 +647,15 @@ def run_case(inp, trace=None, cancel_at=None, info=None):
         obj_is_closing = transport.is_closing
         api = None
         sender = None
+        reader = None
         if path in (0, 1, 6, 7):
             closer = (lambda: transport.aclose()) if path == 0 else (lambda: aclose_forcefully(transport))
         elif path == 3:
             from easynetwork.lowlevel.api_async.endpoints.stream import AsyncStreamEndpoint
             ep = AsyncStreamEndpoint(transport, proto, max_recv_size=1024)
             closer, obj_is_closing = ep.aclose, ep.is_closing
-            sender = (lambda: ep.send_packet("x")) if lock else None
+            sender = (lambda: ep.send_packet("x")) if lock == 1 else None
+            reader = (lambda: ep.recv_packet()) if lock == 2 else None
         elif path == 4:
             from easynetwork.clients.async_tcp import AsyncTCPNetworkClient
 
@@ -658,7 +668,29 @@ def run_case(inp, trace=None, cancel_at=None, info=None):
             sp.quiesce(until=t.done)
             t.result()
             closer, obj_is_closing = client.aclose, client.is_closing
-            sender = (lambda: client.send_packet("x")) if lock else None
+            sender = (lambda: client.send_packet("x")) if lock == 1 else None
+            reader = (lambda: client.recv_packet()) if lock == 2 else None
+        elif path == 8:
+            # the connection is still being established by a send_packet() task, which holds the send lock meanwhile
+            from easynetwork.clients.async_tcp import AsyncTCPNetworkClient
+            connect_gate = loop.create_future()
+
+            class B8(AsyncIOBackend):
+                async def wrap_stream_socket(self, socket, **kw):
+                    socket.close()
+                    try:
+                        await connect_gate
+                    except BaseException:
+                        await aclose_forcefully(transport)     # what an aborted attempt does with its socket (C19)
+                        raise
+                    return transport
+            client = AsyncTCPNetworkClient(csock.dup(), proto, backend=B8())
+            closer, obj_is_closing = client.aclose, client.is_closing
+            implicit = loop.create_task(client.send_packet("x"))
+            implicit.add_done_callback(lambda t: t.cancelled() or t.exception())
+            sp.quiesce()
+            assert not implicit.done() and not connect_gate.done(), "harness: the implicit connect did not suspend"
+            world.sender_fut = connect_gate        # a closer blocked behind that task is "waiting for the sender"
         elif path == 5:
             from easynetwork.lowlevel.api_async.servers.stream import ConnectedStreamClient
             from easynetwork.lowlevel._stream import StreamDataProducer
@@ -727,6 +759,13 @@ def run_case(inp, trace=None, cancel_at=None, info=None):
             sender = None
             in_handler = holder
 
+        reader_task = None
+        if reader is not None:
+            world.reader_fut = "arm"
+            reader_task = loop.create_task(reader())
+            reader_task.add_done_callback(lambda t: t.cancelled() or t.exception())
+            sp.quiesce()
+            assert world.reader_fut not in (None, "arm"), "reader did not suspend"
         sender_task = None
         if sender is not None:
             world.sender_fut = "arm"
@@ -761,6 +800,13 @@ def run_case(inp, trace=None, cancel_at=None, info=None):
                 task3 = loop.create_task(closer())
                 exc3 = drive(task3, is_main=False)
                 snd += [_code(exc3), world.used - before]
+        if reader_task is not None and not reader_task.done():
+            if not world.reader_fut.done():
+                world.reader_fut.set_result(None)
+            sp.quiesce()
+        if path == 8 and not world.sender_fut.done():
+            world.sender_fut.set_result(None)
+            sp.quiesce()
         if sender_task is not None and not sender_task.done():
             if not world.sender_fut.done():
                 world.sender_fut.set_result(None)
@@ -801,11 +847,11 @@ def oracle(inp):
     want = leaves_of(tr[-1])
     if path == 2 and res == 0:
         return None      # the handshake succeeded: nothing to close
-    if path == 3 and lock:
+    if path == 3 and lock == 1:
         return None      # closing the low-level endpoint while another task sends is refused by contract (BusyResourceError)
     what = {0: "transport.aclose", 1: "aclose_forcefully", 2: "tls wrap failure", 3: "endpoint.aclose",
             4: "client aclose", 5: "server-side client aclose", 6: "client task teardown",
-            7: "client task teardown"}[path]
+            7: "client task teardown", 8: "client aclose while connecting"}[path]
     for i in want:
         if not flags[i]:
             where = "cancel at send-lock acquisition" if lock and 2 in labels[:1] else f"labels {labels[:used]}"
@@ -813,11 +859,11 @@ def oracle(inp):
     for i in want:
         if not fds[i]:
             return f"{what}, labels {labels[:used]}: descriptor of leaf {i} still open after the close (result {res})"
-    if snd and not lock and snd[1] != 0:
+    if snd and lock != 1 and snd[1] != 0:
         return f"second close: {snd[1]} suspension points on an already closed transport"
-    if snd and not lock and snd[0] != 0:
+    if snd and lock != 1 and snd[0] != 0:
         return f"second close raised (code {snd[0]}) although nobody interrupted it"
-    if len(snd) > 4 and not lock and (snd[5] != 0 or snd[4] != 0):
+    if len(snd) > 4 and lock != 1 and (snd[5] != 0 or snd[4] != 0):
         return f"third close: result code {snd[4]}, {snd[5]} suspension points"
     return None
 
@@ -900,23 +946,28 @@ def cases(tier, rng, escalate):
     thorough = tier == "thorough" or escalate
     for tr in shapes(thorough):
         is_tls = tr[0] == 1
-        for path in (0, 1, 3, 4, 5, 6, 7):
+        for path in (0, 1, 3, 4, 5, 6, 7, 8):
+            if path == 8 and (is_tls or any(len(x) > 3 for x in ([tr[-1]] if tr[-1][0] == 0 else tr[-1][1:]))):
+                continue
             leaf_specs = [tr[-1]] if tr[-1][0] == 0 else [x for x in tr[-1][1:] if isinstance(x, list)]
             real_leaf = any(len(x) > 3 for x in leaf_specs)
             backlog = any(len(x) > 3 and x[3] == 2 for x in leaf_specs)
-            for lock in ((0, 1) if path in (3, 4, 5, 7) and not real_leaf else (0,)):
+            locks = (0, 1) if path in (3, 4, 5, 7) and not real_leaf else (0,)
+            if path in (3, 4) and not is_tls and not real_leaf:
+                locks = locks + (2,)        # a reader blocked in recv_packet(): no close path takes the receive guard
+            for lock in locks:
                 trace = []
                 run_case([path, tr, lock, [], 0], trace)
                 k = len(trace)
                 extra = 1 if backlog else 2      # handlers may reach further points once an earlier one failed
                 for labels in label_seqs(k + (extra if k else 0), thorough, rng):
-                    second = 0 if (lock or path in (6, 7)) else (2 if (len(labels) + path) % 2 else 1)
+                    second = 0 if (lock == 1 or path in (6, 7)) else (2 if (len(labels) + path) % 2 else 1)
                     yield dict(input=[path, tr, lock, labels, second],
                                tags=[f"path{path}", "tls" if is_tls else "plain", "stapled" if tr[-1][0] == 1 else "leaf",
                                      ] + (["tls-unread-data"] if is_tls and len(tr[1]) > 3 and tr[1][3] == 1 else []) + [
                                      "asyncio-adapter" if real_leaf else "memory-leaf",
                                      ] + (["adapter-backlog"] if backlog else []) + [
-                                     "lock" if lock else "nolock", f"k{k}"] +
+                                     {0: "nolock", 1: "lock", 2: "reader-pending"}[lock], f"k{k}"] +
                                     [f"label{l}" for l in sorted(set(labels))],
                                nontrivial=bool(lock or any(labels)))
     # TLS wrap: the handshake fails / is cancelled / times out at each of its suspension points
